@@ -445,14 +445,24 @@ func c39RunHistory(rt c39T, sc *c39Scenario, wantPoints int) *c39Hist {
 	}
 	phase := "open"
 	kv := &c39KV{Store: crashkv.Wrap(memorydb.New(), h.klog), infl: sc.Infl}
-	// Every key-value event of the explicit state commit (= every batch write of it) is a
-	// candidate crash point; a PRNG-chosen subset is kept once the commit has returned.
-	var commitCands []c39Point
+	// Every key-value event of the explicit state commit (= every batch write of it) and of
+	// the SetHead is a candidate crash point; a PRNG-chosen subset (uniform over the events
+	// of that operation) is kept once the operation has returned.
+	var cands []c39Point
+	keepCands := func() {
+		keep := wantPoints/2 + 1
+		rng.Shuffle(len(cands), func(a, b int) { cands[a], cands[b] = cands[b], cands[a] })
+		if len(cands) > keep {
+			cands = cands[:keep]
+		}
+		h.points = append(h.points, cands...)
+		cands = nil
+	}
 	kv.after = func() {
-		if phase == "commit" && wantPoints >= 0 {
+		if (phase == "commit" || phase == "sethead") && wantPoints >= 0 {
 			pts := h.points
 			capture(phase)
-			commitCands, h.points = append(commitCands, h.points[len(pts):]...), pts
+			cands, h.points = append(cands, h.points[len(pts):]...), pts
 			return
 		}
 		if force || wantPoints < 0 || rng.Float64() < prob {
@@ -509,12 +519,7 @@ func c39RunHistory(rt c39T, sc *c39Scenario, wantPoints int) *c39Hist {
 			h.commitAt = h.klog.Len()
 			h.klog.Mark("commit-done")
 			phase = "committed"
-			keep := wantPoints/2 + 1
-			rng.Shuffle(len(commitCands), func(a, b int) { commitCands[a], commitCands[b] = commitCands[b], commitCands[a] })
-			if len(commitCands) > keep {
-				commitCands = commitCands[:keep]
-			}
-			h.points = append(h.points, commitCands...)
+			keepCands()
 		}
 		if sc.SnapCap > 0 && i == sc.SnapCap && chain.snaps != nil {
 			phase = "snapcap"
@@ -540,12 +545,13 @@ func c39RunHistory(rt c39T, sc *c39Scenario, wantPoints int) *c39Hist {
 	}
 	if sc.SetHead != nil {
 		phase = "sethead"
-		force = true
 		h.setHeadAt = h.klog.Len()
 		h.klog.Mark("sethead-begin")
 		if err := chain.SetHead(*sc.SetHead); err != nil {
 			rt.Fatalf("SetHead(%d) before the crash failed: %v (scenario %s)", *sc.SetHead, err, sc)
 		}
+		phase = "sethead-done"
+		keepCands()
 	}
 	// the crash at the very end ("pull the plug", as the repair tests do)
 	capture("end")
@@ -703,6 +709,9 @@ func (h *c39Hist) reopen(rt c39T, img c39Image) (nontrivial bool, class string) 
 		h.excluded++
 		return false, "excluded"
 	}
+	if sc.Scheme == rawdb.HashScheme && sc.Snapshots {
+		h.reopenWithoutSnapshots(rt, img)
+	}
 	// (1) open succeeds
 	db, err := rawdb.Open(kv, rawdb.OpenOptions{Ancient: ancient})
 	if err != nil {
@@ -820,6 +829,44 @@ func (h *c39Hist) reopen(rt c39T, img c39Image) (nontrivial bool, class string) 
 		}
 	}
 	return nontrivial, class
+}
+
+// reopenWithoutSnapshots evaluates the first clause (head state available and complete)
+// for the same crash image reopened by a node that runs with the flat snapshot switched
+// off (a second, independent copy of the image; "configurations: snapshots on/off").
+// With snapshots on, NewBlockChain blocks in the snapshot generator (SnapshotWait) when
+// the state of the head it selected has holes, so such an image would only ever show up
+// as a timeout; the head selection itself does not depend on the snapshot. Everything
+// else (open errors, the other clauses, the known-finding gates) is left to the main pass.
+func (h *c39Hist) reopenWithoutSnapshots(rt c39T, img c39Image) {
+	dir, err := os.MkdirTemp("", "c39-img0-")
+	if err != nil {
+		rt.Fatalf("VERIF-HARNESS-BUG: %v", err)
+	}
+	defer os.RemoveAll(dir)
+	ancient := filepath.Join(dir, "ancient")
+	if err := img.point.files.WriteTo(ancient); err != nil {
+		rt.Fatalf("VERIF-HARNESS-BUG: writing the freezer image failed: %v", err)
+	}
+	db, err := rawdb.Open(h.klog.Materialize(img.prefix), rawdb.OpenOptions{Ancient: ancient})
+	if err != nil {
+		return
+	}
+	defer db.Close()
+	opt := *h.option
+	opt.SnapshotLimit, opt.SnapshotWait = 0, false
+	chain, err := NewBlockChain(db, h.gspec, ethash.NewFaker(), &opt)
+	if err != nil {
+		return
+	}
+	defer chain.Stop()
+	H := chain.CurrentBlock()
+	if !chain.HasState(H.Root) {
+		h.failf(rt, img, "reopened with snapshots off: state of the head block #%d is not available after recovery", H.Number)
+	}
+	if _, _, err := c39IterateState(chain.triedb, db, H.Root); err != nil {
+		h.failf(rt, img, "reopened with snapshots off: state of the head block #%d (HasState says available) is incomplete: %v", H.Number, err)
+	}
 }
 
 // checkCanonical verifies clause (3).
@@ -1047,6 +1094,8 @@ func c39Fixed() []*c39Scenario {
 		// hash scheme, contract storage, a batch is full after every 1-2 trie nodes: the explicit
 		// commit is spread over dozens of batch writes and each of them is a crash point
 		{Scheme: rawdb.HashScheme, Snapshots: false, CanonL: 7, Commit: 5, Finalized: 3, TxBlocks: 0x7f, Slots: 6, Infl: 512},
+		// path scheme, SetHead to a block below the persisted state (rollback through state histories)
+		{Scheme: rawdb.PathScheme, Snapshots: false, CanonL: 9, Commit: 7, Finalized: 2, SetHead: u(3), TxBlocks: 0x1ff, Slots: 3},
 	}
 }
 
@@ -1057,7 +1106,7 @@ func TestVerifC39EveryEvent(t *testing.T) {
 	st := vs.New("C39", t)
 	scs := c39Fixed()
 	if !vs.Thorough() {
-		scs = append(scs[1:3:3], scs[4])
+		scs = append(scs[1:3:3], scs[4:]...)
 	}
 	var collect *c39Collector
 	if os.Getenv("VERIF_C39_COLLECT") != "" {
